@@ -824,9 +824,9 @@ class _Interp:
           prev_end = cn.end
       anon(c.tail)
 
-    # implicit end (SMIL par: end-sync last; seq: end of the last child; no children: the begin itself);
-    # leaves that are not time containers of content: br, region -- indefinite in par, zero in seq
-    if kind in ("br", "region") and not ends:
+    # implicit end.  br and region are not time containers of content: indefinite in a par, zero in a seq (TTML2 12.2);
+    # containers: SMIL par = end-sync last, seq = end of the last child, no children = the begin itself
+    if kind in ("br", "region"):
       implicit = n.begin if seq_parent else None
     elif not ends:
       implicit = n.begin
@@ -836,8 +836,6 @@ class _Interp:
       implicit = n.begin
       for e in ends:
         implicit = _tmax(implicit, e)
-    if kind in ("br", "region") and ends and not seq_parent:
-      implicit = None
     n.end = self.active_end(n, implicit)
     return n
 
